@@ -52,9 +52,11 @@ Record sreq := {
   sr_form : form;                                  (* Request.FormData *)
   sr_ordered : list bytes;                         (* Request.OrderedFormData *)
   sr_merged : list (bytes * nat * list bytes);     (* Request.clientMerged.form / formAt *)
-  sr_body : bool                                   (* SetBody(&payload) was called *)
+  sr_body : bool;                                  (* SetBody(&payload) was called *)
+  sr_snap : N                                      (* the payload version marshalled at the last set-up
+                                                      of the body (Request.Body holds those bytes) *)
 }.
-Definition sreq0 : sreq := {| sr_form := []; sr_ordered := []; sr_merged := []; sr_body := false |}.
+Definition sreq0 : sreq := {| sr_form := []; sr_ordered := []; sr_merged := []; sr_body := false; sr_snap := 0 |}.
 
 Record sstate := { ss_client : form; ss_reqs : list sreq; ss_cell : N }.
 
@@ -68,6 +70,8 @@ Inductive sop :=
 | SSend (i : nat)                       (* R_i is executed *)
 | SSendQuiet (i : nat)                  (* R_i is executed as multipart: same book-keeping, the body is
                                            judged by the oracle only (map order, random boundary) *)
+| SBegin (i : nat)                      (* the before-request stage of R_i: the body is set up ... *)
+| SFinish (i : nat)                     (* ... and, later, written (a round-trip wrapper, another goroutine may run in between) *)
 | SSendRetry (i : nat) (ver : N).       (* ... first attempt answered 503, the retry hook changes the
                                            payload to ver, second attempt *)
 
@@ -85,23 +89,27 @@ Fixpoint upd {A} (i : nat) (f : A -> A) (l : list A) : list A :=
   end.
 
 Definition on_form (f : form -> form) (r : sreq) : sreq :=
-  {| sr_form := f (sr_form r); sr_ordered := sr_ordered r; sr_merged := sr_merged r; sr_body := sr_body r |}.
+  {| sr_form := f (sr_form r); sr_ordered := sr_ordered r; sr_merged := sr_merged r; sr_body := sr_body r; sr_snap := sr_snap r |}.
 
 (* set-up of the body at the start of an execution: take back, merge, encode *)
-Definition prepare (client : form) (r : sreq) : sreq :=
+Definition prepare (client : form) (cell : N) (r : sreq) : sreq :=
   let own := unmerge (sr_merged r) (sr_form r) in
   match client with
-  | [] => {| sr_form := own; sr_ordered := sr_ordered r; sr_merged := []; sr_body := sr_body r |}
+  | [] => {| sr_form := own; sr_ordered := sr_ordered r; sr_merged := []; sr_body := sr_body r; sr_snap := cell |}
   | _ => {| sr_form := merge_form own client; sr_ordered := sr_ordered r;
-            sr_merged := merge_records own client; sr_body := sr_body r |}
+            sr_merged := merge_records own client; sr_body := sr_body r; sr_snap := cell |}
   end.
 
+(* a retry attempt sets the body up again: the payload is marshalled anew *)
+Definition resnap (cell : N) (r : sreq) : sreq :=
+  {| sr_form := sr_form r; sr_ordered := sr_ordered r; sr_merged := sr_merged r; sr_body := sr_body r; sr_snap := cell |}.
+
 (* what parseRequestBody makes of the prepared request (no merge again: clientFormDataMerged) *)
-Definition emit (i : nat) (cell : N) (r : sreq) : sout :=
+Definition emit (i : nat) (r : sreq) : sout :=
   match form_plan_of (sr_form r) [] (sr_ordered r) with
   | FBody b => OutBody i b
   | FBadOrdered => OutErr i
-  | FNone => if sr_body r then OutMarshal i cell else OutNone i
+  | FNone => if sr_body r then OutMarshal i (sr_snap r) else OutNone i
   end.
 
 Definition sstep (s : sstate) (o : sop) : sstate * list sout :=
@@ -114,25 +122,29 @@ Definition sstep (s : sstate) (o : sop) : sstate * list sout :=
   | SReqOrdered i kvs =>
       ({| ss_client := ss_client s;
           ss_reqs := upd i (fun r => {| sr_form := sr_form r; sr_ordered := sr_ordered r ++ kvs;
-                                        sr_merged := sr_merged r; sr_body := sr_body r |}) (ss_reqs s);
+                                        sr_merged := sr_merged r; sr_body := sr_body r; sr_snap := sr_snap r |}) (ss_reqs s);
           ss_cell := ss_cell s |}, [])
   | SReqBody i =>
       ({| ss_client := ss_client s;
           ss_reqs := upd i (fun r => {| sr_form := sr_form r; sr_ordered := sr_ordered r;
-                                        sr_merged := sr_merged r; sr_body := true |}) (ss_reqs s);
+                                        sr_merged := sr_merged r; sr_body := true; sr_snap := sr_snap r |}) (ss_reqs s);
           ss_cell := ss_cell s |}, [])
   | SCellSet v => ({| ss_client := ss_client s; ss_reqs := ss_reqs s; ss_cell := v |}, [])
   | SSend i =>
-      let r := prepare (ss_client s) (nth i (ss_reqs s) sreq0) in
+      let r := prepare (ss_client s) (ss_cell s) (nth i (ss_reqs s) sreq0) in
       ({| ss_client := ss_client s; ss_reqs := upd i (fun _ => r) (ss_reqs s); ss_cell := ss_cell s |},
-       [emit i (ss_cell s) r])
+       [emit i r])
   | SSendQuiet i =>
-      let r := prepare (ss_client s) (nth i (ss_reqs s) sreq0) in
+      let r := prepare (ss_client s) (ss_cell s) (nth i (ss_reqs s) sreq0) in
       ({| ss_client := ss_client s; ss_reqs := upd i (fun _ => r) (ss_reqs s); ss_cell := ss_cell s |}, [])
   | SSendRetry i v =>
-      let r := prepare (ss_client s) (nth i (ss_reqs s) sreq0) in
-      ({| ss_client := ss_client s; ss_reqs := upd i (fun _ => r) (ss_reqs s); ss_cell := v |},
-       [emit i (ss_cell s) r; emit i v r])
+      let r := prepare (ss_client s) (ss_cell s) (nth i (ss_reqs s) sreq0) in
+      ({| ss_client := ss_client s; ss_reqs := upd i (fun _ => resnap v r) (ss_reqs s); ss_cell := v |},
+       [emit i r; emit i (resnap v r)])
+  | SBegin i =>
+      let r := prepare (ss_client s) (ss_cell s) (nth i (ss_reqs s) sreq0) in
+      ({| ss_client := ss_client s; ss_reqs := upd i (fun _ => r) (ss_reqs s); ss_cell := ss_cell s |}, [])
+  | SFinish i => (s, [emit i (nth i (ss_reqs s) sreq0)])
   end.
 
 Fixpoint srun (s : sstate) (ops : list sop) : list sout :=
